@@ -266,7 +266,7 @@ func TestVerifPoolRun(t *testing.T) {
 		select {
 		case <-shutDone:
 			r.ShutdownReturned = true
-		case <-time.After(12 * time.Second):
+		case <-time.After(30 * time.Second):
 		}
 		close(stop)
 		callersDone := make(chan struct{})
@@ -274,12 +274,12 @@ func TestVerifPoolRun(t *testing.T) {
 		select {
 		case <-callersDone:
 			r.CallsReturned = true
-		case <-time.After(12 * time.Second):
+		case <-time.After(30 * time.Second):
 		}
 		select {
 		case <-runDone:
 			r.RunReturned = true
-		case <-time.After(2 * time.Second):
+		case <-time.After(6 * time.Second):
 		}
 		if r.ShutdownReturned && r.CallsReturned {
 			r.Registered, r.Addresses = len(p.pool), len(p.addresses)
@@ -315,7 +315,7 @@ func TestVerifPoolRun(t *testing.T) {
 			case <-afterDone:
 				r.AfterReturned = true
 				r.After = after
-			case <-time.After(12 * time.Second):
+			case <-time.After(30 * time.Second):
 			}
 		}
 		runtime.GOMAXPROCS(prev)
